@@ -192,6 +192,15 @@ void (*volatile _dispatch_verif_atomic_hook)(int phase, int op,
 		_os_atomic_basetypeof(_dvp) _r = atomic_fetch_##o##_explicit( \
 				_os_atomic_c11_atomic(_dvp), _v, memory_order_##m); \
 		_dispatch_verif_hook(1, 4, _dvp); _r; })
+/*
+ * A named point without an atomic access (op 5): lets the harness hold a
+ * thread at a place where the code only does plain loads.
+ */
+#define _dispatch_verif_point(p) do { \
+		_dispatch_verif_hook(0, 5, (p)); _dispatch_verif_hook(1, 5, (p)); \
+	} while (0)
+#else
+#define _dispatch_verif_point(p) ((void)0)
 #endif // DISPATCH_VERIF
 
 #define os_atomic_force_dependency_on(p, e) (p)
